@@ -7,8 +7,11 @@ is a theorem of the spec function's definition (J = concatenation of a list of s
 isspace/isdigit = non-empty and every character in the class, ...); each schema is
 validated against CPython by `pyvc.axioms.validate()` on every run.
 """
+import hashlib
+
 from .terms import (
     BOOL,
+    Const,
     INT,
     STR,
     Add,
@@ -34,6 +37,7 @@ from .terms import (
     T,
     subterms,
     subst,
+    subst_term,
     consts_of,
 )
 
@@ -83,6 +87,21 @@ class Hom(object):
         if self.kind == "str":
             return S("")
         return T("#empty", (), self.t.sort)
+
+
+def filter_shape(h):
+    """'pos' for unit = ite(P(x), [x], []), 'neg' for ite(P(x), [], [x]), None otherwise"""
+    if h.tpl is None:
+        return None
+    tp = h.tpl["template"]
+    if tp.op != "ite":
+        return None
+    a, b = tp.args[1], tp.args[2]
+    if a.op == "seq.unit" and str(a.args[0]) == h.tpl["x"] and b.op == "#empty":
+        return "pos"
+    if b.op == "seq.unit" and str(b.args[0]) == h.tpl["x"] and a.op == "#empty":
+        return "neg"
+    return None
 
 
 def is_hom(t):
@@ -136,6 +155,13 @@ def instantiate(terms, rounds=5, templates=None):
             top_level.add(str(t))
         elif t.op == "and":
             top_level.update(str(a) for a in t.args if a.op == "#forall")
+    seq_defs = {}
+    for t in terms[:-1]:
+        for e in t.args if t.op == "and" else [t]:
+            if e.op == "=" and len(e.args) == 2:
+                for c, d in ((e.args[0], e.args[1]), (e.args[1], e.args[0])):
+                    if c.op == "#const" and isinstance(c.sort, tuple) and c.sort[0] == "Seq" and (d.op == "seq.++" or d.op.startswith("hom_")):
+                        seq_defs.setdefault(str(c), []).append(d)
     for rnd in range(rounds):
         allsub = {}
         for t in work:
@@ -416,56 +442,84 @@ def instantiate(terms, rounds=5, templates=None):
                         if changed:
                             done_other.add(kk)
                             new.append(Eq(t, App(t.op, (xs,) + tuple(na), t.sort)))
-        # element of a concatenation / of a unit / of an extract: case split made explicit
-        for t in list(allsub.values()):
-            if t.op == "seq.nth":
-                x, k = t.args
-                kk = ("nth", str(t))
-                if kk in done_other:
-                    continue
-                done_other.add(kk)
-                if x.op == "seq.++":
-                    off = I(0)
-                    for part in x.args:
-                        if part.op == "seq.unit":
-                            new.append(Implies(Eq(k, off), Eq(t, part.args[0])))
-                        else:
-                            new.append(Implies(And(Le(off, k), Lt(k, Add(off, Len(part)))), Eq(t, Nth(part, Sub(k, off)))))
-                        off = Add(off, Len(part))
-                elif x.op == "seq.extract":
-                    s0, a, n = x.args
-                    new.append(Implies(And(Le(I(0), a), Le(I(0), k), Lt(k, n), Lt(Add(a, k), Len(s0))), Eq(t, Nth(s0, Add(a, k)))))
-                elif x.op == "ite":
-                    new.append(Eq(t, Ite(x.args[0], Nth(x.args[1], k), Nth(x.args[2], k))))
-                elif x.op == "irange":
-                    new.append(Implies(And(Le(I(0), k), Lt(k, Sub(x.args[1], x.args[0]))), Eq(t, Add(x.args[0], k))))
-        # element of a map-shaped spec function
-        for t in list(allsub.values()):
-            if t.op == "seq.nth" and t.args[0].op.startswith("hom_"):
-                h = Hom(t.args[0], templates)
-                if h.tpl["template"].op == "seq.unit":
-                    kk = ("map-elem", str(t))
+        def nth_rules(nth_terms):
+            new = []
+            # a sequence constant defined by a top-level equation (c == concatenation / spec function): its elements are the
+            # elements of the defining term (congruence made explicit, so that the element rules below see them)
+            for t in list(nth_terms):
+                if t.op == "seq.nth" and t.args[0].op == "#const" and str(t.args[0]) in seq_defs:
+                    for d in seq_defs[str(t.args[0])]:
+                        kk = ("def-elem", str(t), str(d))
+                        if kk in done_other:
+                            continue
+                        done_other.add(kk)
+                        nt = Nth(d, t.args[1])
+                        new.append(Eq(t, nt))
+                        allsub.setdefault(str(nt), nt)
+            # element of a concatenation / of a unit / of an extract: case split made explicit
+            for t in list(nth_terms):
+                if t.op == "seq.nth":
+                    x, k = t.args
+                    kk = ("nth", str(t))
                     if kk in done_other:
                         continue
                     done_other.add(kk)
-                    xs, k = t.args[0].args[0], t.args[1]
-                    u = h.unit(Nth(xs, k))
-                    new.append(Implies(And(Le(I(0), k), Lt(k, Len(xs))), Eq(t, u.args[0])))
-        # elements of a filter satisfy the filter's predicate (filter-shaped homs: unit = ite(P(x), [x], []))
-        for t in list(allsub.values()):
-            if t.op == "seq.nth" and t.args[0].op.startswith("hom_"):
-                kk = ("filt-elem", str(t))
-                if kk in done_other:
-                    continue
-                done_other.add(kk)
-                h = Hom(t.args[0], templates)
-                tp = h.tpl["template"]
-                if tp.op == "ite" and tp.args[1].op == "seq.unit" and str(tp.args[1].args[0]) == h.tpl["x"] and tp.args[2].op == "#empty":
-                    u = h.unit(t)  # ite(P(t), [t], [])
-                    if u.op == "ite":
-                        new.append(Implies(And(Le(I(0), t.args[1]), Lt(t.args[1], Len(t.args[0]))), u.args[0]))
-                    elif u.op == "seq.unit":
-                        pass
+                    if x.op == "seq.++":
+                        off = I(0)
+                        for part in x.args:
+                            if part.op == "seq.unit":
+                                new.append(Implies(Eq(k, off), Eq(t, part.args[0])))
+                            else:
+                                new.append(Implies(And(Le(off, k), Lt(k, Add(off, Len(part)))), Eq(t, Nth(part, Sub(k, off)))))
+                            off = Add(off, Len(part))
+                    elif x.op == "seq.extract":
+                        s0, a, n = x.args
+                        new.append(Implies(And(Le(I(0), a), Le(I(0), k), Lt(k, n), Lt(Add(a, k), Len(s0))), Eq(t, Nth(s0, Add(a, k)))))
+                    elif x.op == "ite":
+                        new.append(Eq(t, Ite(x.args[0], Nth(x.args[1], k), Nth(x.args[2], k))))
+                    elif x.op == "irange":
+                        new.append(Implies(And(Le(I(0), k), Lt(k, Sub(x.args[1], x.args[0]))), Eq(t, Add(x.args[0], k))))
+            # element of a map-shaped spec function
+            for t in list(nth_terms):
+                if t.op == "seq.nth" and t.args[0].op.startswith("hom_"):
+                    h = Hom(t.args[0], templates)
+                    if h.tpl["template"].op == "seq.unit":
+                        kk = ("map-elem", str(t))
+                        if kk in done_other:
+                            continue
+                        done_other.add(kk)
+                        xs, k = t.args[0].args[0], t.args[1]
+                        u = h.unit(Nth(xs, k))
+                        new.append(Implies(And(Le(I(0), k), Lt(k, Len(xs))), Eq(t, u.args[0])))
+            # elements of a filter satisfy the filter's predicate (filter-shaped homs: unit = ite(P(x), [x], []))
+            for t in list(nth_terms):
+                if t.op == "seq.nth" and t.args[0].op.startswith("hom_"):
+                    kk = ("filt-elem", str(t))
+                    if kk in done_other:
+                        continue
+                    done_other.add(kk)
+                    h = Hom(t.args[0], templates)
+                    shape = filter_shape(h)
+                    if shape:
+                        u = h.unit(t)  # ite(P(t), [t], []) or ite(P(t), [], [t])
+                        if u.op == "ite":
+                            new.append(Implies(And(Le(I(0), t.args[1]), Lt(t.args[1], Len(t.args[0]))), u.args[0] if shape == "pos" else Not(u.args[0])))
+            return new
+
+        # element rules run to a (bounded) fixpoint inside the round: an element of a constant defined as a concatenation of
+        # filters of filters is traced back to the sequence it came from without spending one round per step
+        pending = [t for t in allsub.values() if t.op == "seq.nth"]
+        for _ in range(6):
+            lem = nth_rules(pending)
+            new.extend(lem)
+            sub2 = {}
+            for l in lem:
+                subterms(l, sub2)
+            pending = [t for k, t in sub2.items() if t.op == "seq.nth" and k not in allsub and not (bound & set(_names(t)))]
+            for t in pending:
+                allsub[str(t)] = t
+            if not pending or len(out) + len(new) > MAX_INST:
+                break
         # reverse (uninterpreted rev_*): length and element facts at the index terms of the VC
         idx_terms = {}
         bound = set(t.args[0].args[0] for t in allsub.values() if t.op in ("#forall", "#exists"))
@@ -496,7 +550,12 @@ def instantiate(terms, rounds=5, templates=None):
                 key_cands.setdefault(str(t.args[1].sort), {})[str(t.args[1])] = t.args[1]
             if t.op == "store" and t.args[1].sort != INT and len(str(t.args[1])) < 200:
                 key_cands.setdefault(str(t.args[1].sort), {})[str(t.args[1])] = t.args[1]
+        # quantified formulas stay candidates in every later round (new index terms keep appearing)
+        fa_all = persist.setdefault("foralls", {})
         for t in allsub.values():
+            if t.op == "#forall":
+                fa_all.setdefault(str(t), t)
+        for t in list(fa_all.values()):
             if t.op == "#forall":
                 kv, rng, body = t.args
                 if not positive_in(t, terms_pos):
@@ -504,6 +563,19 @@ def instantiate(terms, rounds=5, templates=None):
                 if (bound - {kv.args[0]}) & set(_names(t)):
                     continue  # nested quantifier that mentions an outer bound variable
                 mycands = cands if kv.sort == INT else list(key_cands.get(str(kv.sort), {}).values())[:10]
+                if kv.sort == INT:
+                    # trigger matching first: the body reads seq[k], so the index terms at which that very sequence is read
+                    # elsewhere in the VC are the relevant instances
+                    trig = {}
+                    bsub = {}
+                    subterms(body, bsub)
+                    for bt in bsub.values():
+                        if bt.op == "seq.nth" and str(bt.args[1]) == str(kv):
+                            for ks, it in idx_terms.get(str(bt.args[0]), {}).items():
+                                trig.setdefault(ks, it)
+                    if trig:
+                        pri = sorted(trig.items(), key=lambda kv2: (not kv2[0].startswith("orig_"), len(kv2[0])))
+                        mycands = [it for _, it in pri[:24]]
                 for c in mycands:
                     if kv.args[0] in consts_of([c]):
                         continue
@@ -515,6 +587,64 @@ def instantiate(terms, rounds=5, templates=None):
                     inst_body = Implies(subst(rng, m), subst(body, m))
                     # a universally quantified formula that is itself an assumption needs no guard
                     new.append(inst_body if str(t) in top_level else Implies(t, inst_body))
+        # element-wise facts pass to sub-sequences: a top-level  forall k in [0, len(L)): phi(L[k])  holds for every element of
+        # a sequence derived from L by filter-shaped spec functions, concatenation of such, and constants the assumptions
+        # define as such (every element of a derived sequence is an element of L); instantiated at the index terms at
+        # which the derived sequence is read
+        seq_all = persist.setdefault("seq_terms", {})
+        idx_all = persist.setdefault("idx_all", {})
+        for t in allsub.values():
+            if (t.op.startswith("hom_") or t.op == "seq.++") and isinstance(t.sort, tuple):
+                seq_all.setdefault(str(t), t)
+        for ks, d in idx_terms.items():
+            idx_all.setdefault(ks, {}).update(d)
+        for t in list(fa_all.values()):
+            if str(t) not in top_level:
+                continue
+            kv, rng, body = t.args
+            if kv.sort != INT or rng.op != "and" or len(rng.args) != 2:
+                continue
+            lo_c, hi_c = rng.args
+            if not (lo_c.op == "<=" and str(lo_c.args[0]) == "0" and str(lo_c.args[1]) == str(kv) and hi_c.op == "<" and str(hi_c.args[0]) == str(kv) and hi_c.args[1].op == "seq.len"):
+                continue
+            L0 = hi_c.args[1].args[0]
+            elem = Nth(L0, kv)
+            ph = Const("elem!lift", L0.sort[1])
+            phi = subst_term(body, elem, ph)
+            if kv.args[0] in consts_of([phi]):
+                continue  # the body uses k otherwise than as L[k]
+            derived = {str(L0)}
+
+            def is_derived(x):
+                if str(x) in derived:
+                    return True
+                if x.op.startswith("hom_"):
+                    if filter_shape(Hom(x, templates)):
+                        return is_derived(x.args[0])
+                    return False
+                if x.op == "seq.++":
+                    return all(is_derived(a) for a in x.args)
+                if x.op == "#const" and str(x) in seq_defs:
+                    return any(is_derived(d) for d in seq_defs[str(x)])
+                return False
+
+            for ks, its in list(idx_all.items()):
+                if ks == str(L0):
+                    continue
+                # the sequence whose elements are read: a constant with a definition, a filter term or a concatenation
+                xs = None
+                if ks in seq_defs:
+                    xs = Const(ks, L0.sort)
+                elif ks in seq_all:
+                    xs = seq_all[ks]
+                if xs is None or xs.sort != L0.sort or not is_derived(xs):
+                    continue
+                for it_s, it in list(its.items())[:12]:
+                    kk = ("lift", str(t), ks, it_s)
+                    if kk in done_other:
+                        continue
+                    done_other.add(kk)
+                    new.insert(0, Implies(And(Le(I(0), it), Lt(it, Len(xs))), subst_term(phi, ph, Nth(xs, it))))
         added = [t for t in new if add(t)]
         if not added:
             break
